@@ -38,6 +38,19 @@ type siteInfo struct {
 	Why   string `json:"why,omitempty"`
 }
 
+var fsPkgs = map[string]string{"os": "os", "path/filepath": "fp", "io/ioutil": "iu"}
+
+// functions that have a shim in hooksSrc
+var fsFuncs = map[string]bool{
+	"os.Create": true, "os.Open": true, "os.OpenFile": true, "os.ReadFile": true, "os.WriteFile": true, "os.Remove": true, "os.RemoveAll": true,
+	"os.Rename": true, "os.Mkdir": true, "os.MkdirAll": true, "os.MkdirTemp": true, "os.CreateTemp": true, "os.Stat": true, "os.Lstat": true,
+	"os.Readlink": true, "os.Symlink": true, "os.Link": true, "os.Chdir": true, "os.Getwd": true, "os.Chmod": true, "os.Truncate": true, "os.ReadDir": true,
+	"fp.Walk": true, "fp.WalkDir": true, "fp.Glob": true, "fp.EvalSymlinks": true,
+	"iu.ReadFile": true, "iu.WriteFile": true, "iu.TempFile": true, "iu.TempDir": true, "iu.ReadDir": true,
+}
+
+var nFS int
+
 func main() {
 	repo := flag.String("repo", "/repo", "repository root")
 	out := flag.String("out", "/verif/work/overlay", "output directory")
@@ -136,9 +149,31 @@ func main() {
 			return true
 		})
 		usesTime := false
+		var keepAlive []string // imports that may lose their last use to a seam
 		for _, imp := range f.Imports {
 			if imp.Path.Value == `"time"` {
 				usesTime = true
+			}
+			name := ""
+			if imp.Name != nil {
+				name = imp.Name.Name
+			}
+			switch imp.Path.Value {
+			case `"os"`:
+				if name == "" {
+					name = "os"
+				}
+				keepAlive = append(keepAlive, name+".Getpid")
+			case `"path/filepath"`:
+				if name == "" {
+					name = "filepath"
+				}
+				keepAlive = append(keepAlive, name+".Clean")
+			case `"io/ioutil"`:
+				if name == "" {
+					name = "ioutil"
+				}
+				keepAlive = append(keepAlive, name+".Discard")
 			}
 		}
 		where := func(p token.Pos) string {
@@ -218,6 +253,15 @@ func main() {
 				// 2. clock seam
 				if sel, ok := n.Fun.(*ast.SelectorExpr); ok {
 					if x, ok := sel.X.(*ast.Ident); ok {
+						// 7. file-system seam: calls of os / path/filepath / io/ioutil functions that take a path go
+						// through shims which report (operation, path, read or write) to a hook before the real call
+						if pn, ok := pkg.TypesInfo.Uses[x].(*types.PkgName); ok {
+							if short, known := fsPkgs[pn.Imported().Path()]; known && fsFuncs[short+"."+sel.Sel.Name] {
+								n.Fun = ast.NewIdent("verif" + short + "_" + sel.Sel.Name)
+								changed = true
+								nFS++
+							}
+						}
 						if pn, ok := pkg.TypesInfo.Uses[x].(*types.PkgName); ok && pn.Imported().Path() == "time" {
 							switch sel.Sel.Name {
 							case "Now":
@@ -418,6 +462,11 @@ func main() {
 		if usesTime {
 			src = append(src, []byte("\nvar _ = time.Now\n")...)
 		}
+		for _, k := range keepAlive {
+			if k[0] != '_' && k[0] != '.' {
+				src = append(src, []byte("\nvar _ = "+k+"\n")...)
+			}
+		}
 		dst := filepath.Join(*out, "in_toto", filepath.Base(fn))
 		if err := os.WriteFile(dst, src, 0o644); err != nil {
 			fatal("%v", err)
@@ -459,7 +508,7 @@ func main() {
 		"sync_operations": nSync, "sync_operations_not_owned": unowned, "go_statements": nGo, "channel_operations": nChan, "go_statements_owned": nGoOwned, "channel_operations_owned": nChanOwned,
 	}, "", " ")
 	os.WriteFile(filepath.Join(*out, "report.json"), rep, 0o644)
-	fmt.Printf("overlay: %d files, %d/%d map-range sites owned, %d clock calls, %d accesses to %d package-level variables, %d os/exec imports, %d sync operations, %d/%d go statements and %d/%d channel operations owned, %d constructs not owned\n",
+	fmt.Printf("overlay: %d files, %d/%d map-range sites owned, %d clock calls, %d accesses to %d package-level variables, %d os/exec imports, %d sync operations, %d/%d go statements and %d/%d channel operations owned, %d constructs not owned, "+fmt.Sprint(nFS)+" file-system calls\n",
 		len(replace), owned, len(sites), nClock, nGlobal, len(globalNames), nExec, nSync, nGoOwned, nGo, nChanOwned, nChan, len(unowned))
 }
 
@@ -592,11 +641,101 @@ const hooksSrc = `//go:build verif
 package in_toto
 
 import (
+	"io/fs"
+	"os"
+	"path/filepath"
 	"reflect"
 	"sort"
 	"sync"
 	"time"
 )
+
+// VerifFSHook is called before every file-system call of the package that takes a path.
+var VerifFSHook func(op, path string, write bool)
+
+func verifFS(op, path string, write bool) {
+	if h := VerifFSHook; h != nil {
+		h(op, path, write)
+	}
+}
+
+func verifTmp(dir, pattern string) string {
+	if dir == "" {
+		dir = os.TempDir()
+	}
+	return filepath.Join(dir, pattern)
+}
+
+func verifos_Create(name string) (*os.File, error) { verifFS("Create", name, true); return os.Create(name) }
+func verifos_Open(name string) (*os.File, error)   { verifFS("Open", name, false); return os.Open(name) }
+func verifos_OpenFile(name string, flag int, perm os.FileMode) (*os.File, error) {
+	verifFS("OpenFile", name, flag&(os.O_WRONLY|os.O_RDWR|os.O_CREATE|os.O_TRUNC|os.O_APPEND) != 0)
+	return os.OpenFile(name, flag, perm)
+}
+func verifos_ReadFile(name string) ([]byte, error) { verifFS("ReadFile", name, false); return os.ReadFile(name) }
+func verifos_WriteFile(name string, data []byte, perm os.FileMode) error {
+	verifFS("WriteFile", name, true)
+	return os.WriteFile(name, data, perm)
+}
+func verifos_Remove(name string) error    { verifFS("Remove", name, true); return os.Remove(name) }
+func verifos_RemoveAll(name string) error { verifFS("RemoveAll", name, true); return os.RemoveAll(name) }
+func verifos_Rename(o, n string) error {
+	verifFS("Rename", o, true)
+	verifFS("Rename", n, true)
+	return os.Rename(o, n)
+}
+func verifos_Mkdir(name string, perm os.FileMode) error    { verifFS("Mkdir", name, true); return os.Mkdir(name, perm) }
+func verifos_MkdirAll(name string, perm os.FileMode) error { verifFS("MkdirAll", name, true); return os.MkdirAll(name, perm) }
+func verifos_MkdirTemp(dir, pattern string) (string, error) {
+	verifFS("MkdirTemp", verifTmp(dir, pattern), true)
+	return os.MkdirTemp(dir, pattern)
+}
+func verifos_CreateTemp(dir, pattern string) (*os.File, error) {
+	verifFS("CreateTemp", verifTmp(dir, pattern), true)
+	return os.CreateTemp(dir, pattern)
+}
+func verifos_Stat(name string) (os.FileInfo, error)  { verifFS("Stat", name, false); return os.Stat(name) }
+func verifos_Lstat(name string) (os.FileInfo, error) { verifFS("Lstat", name, false); return os.Lstat(name) }
+func verifos_Readlink(name string) (string, error)   { verifFS("Readlink", name, false); return os.Readlink(name) }
+func verifos_Symlink(o, n string) error              { verifFS("Symlink", n, true); return os.Symlink(o, n) }
+func verifos_Link(o, n string) error                 { verifFS("Link", n, true); return os.Link(o, n) }
+func verifos_Chdir(dir string) error                 { verifFS("Chdir", "<working directory of the process>", true); return os.Chdir(dir) }
+func verifos_Getwd() (string, error) {
+	verifFS("Getwd", "<working directory of the process>", false)
+	return os.Getwd()
+}
+func verifos_Chmod(name string, mode os.FileMode) error { verifFS("Chmod", name, true); return os.Chmod(name, mode) }
+func verifos_Truncate(name string, size int64) error    { verifFS("Truncate", name, true); return os.Truncate(name, size) }
+func verifos_ReadDir(name string) ([]os.DirEntry, error) { verifFS("ReadDir", name, false); return os.ReadDir(name) }
+func veriffp_Walk(root string, fn filepath.WalkFunc) error { verifFS("Walk", root, false); return filepath.Walk(root, fn) }
+func veriffp_WalkDir(root string, fn fs.WalkDirFunc) error { verifFS("WalkDir", root, false); return filepath.WalkDir(root, fn) }
+func veriffp_Glob(pattern string) ([]string, error) {
+	verifFS("Glob", filepath.Dir(pattern), false)
+	return filepath.Glob(pattern)
+}
+func veriffp_EvalSymlinks(path string) (string, error) { verifFS("EvalSymlinks", path, false); return filepath.EvalSymlinks(path) }
+func verifiu_ReadFile(name string) ([]byte, error)     { return verifos_ReadFile(name) }
+func verifiu_WriteFile(name string, data []byte, perm os.FileMode) error {
+	return verifos_WriteFile(name, data, perm)
+}
+func verifiu_TempFile(dir, pattern string) (*os.File, error) { return verifos_CreateTemp(dir, pattern) }
+func verifiu_TempDir(dir, pattern string) (string, error)    { return verifos_MkdirTemp(dir, pattern) }
+func verifiu_ReadDir(name string) ([]os.FileInfo, error) {
+	verifFS("ReadDir", name, false)
+	es, err := os.ReadDir(name)
+	if err != nil {
+		return nil, err
+	}
+	out := make([]os.FileInfo, 0, len(es))
+	for _, e := range es {
+		i, err := e.Info()
+		if err != nil {
+			return nil, err
+		}
+		out = append(out, i)
+	}
+	return out, nil
+}
 
 // Hook variables set by the /verif harness. With the verif tag off none of
 // this exists.
